@@ -13,7 +13,7 @@ FIXTURES = os.path.join(VERIF_DIR, "fixtures")
 
 REGISTRY: dict[str, Callable[[Run, Program], None]] = {}
 CONTROLS: dict[str, list[tuple[str, Callable[[Run, Program], object], list[tuple[str, str]]]]] = {}
-NOT_APPLICABLE = {"C01", "C10", "C13", "C15", "C20"}
+NOT_APPLICABLE = {"C01", "C10", "C13", "C15"}
 
 
 def prop(pid: str):
@@ -521,3 +521,23 @@ def check_c17(run: Run, prog: Program) -> None:
     run.floor("measure return paths", n2, 4)
     run.floor("point-valued vertex statistics", n1, 1)
     run.stats.update({"affine_sinks": n1, "measure_returns": n2})
+
+
+# ================================================================================================ C20
+@prop("C20")
+def check_c20(run: Run, prog: Program) -> None:
+    from geolint import polyform
+
+    run.title = "The numeric kernels agree with exact linear algebra on every code path"
+    run.clause = (
+        "decides ONLY the closed-form branches that the size thresholds select, as algebra and index tables, not as numbers: (E12.det) every "
+        "`n == k` closed form of det is the Leibniz polynomial of the k x k determinant; (E12.adj) the 2x2 index table of adjugate is the "
+        "adjugate, the minor path transposes once, negates exactly the positions with odd i + j for every n and pairs each minor with its own "
+        "row and column; (E12.inv) the closed form of inv is adjugate(A) / det(A) broadcast over the matrix axes after a singularity test; "
+        "(E12.hat) the 3D index table of hat_matrix is the Levi-Civita contraction the documentation shows. NOT decided: which inputs reach which "
+        "branch (thresholds), the numpy fall-backs, the epsilon-diagram branch of adjugate, null_space/orth, roots (a triple root is known to be "
+        "lost, DESIGN section 6 D7), is_multiple, matmul/matvec/outer."
+    )
+    n = polyform.rule_det(run, prog) + polyform.rule_adjugate(run, prog) + polyform.rule_inv(run, prog) + polyform.rule_hat(run, prog)
+    run.stats["closed_form_obligations"] = n
+    run.floor("closed-form obligations", n, 6)
